@@ -186,7 +186,7 @@ pub fn edit_without_effect<D: graaf::AddArc + graaf::RemoveArc + graaf::HasArc>(
 }
 
 /// The weighted counterpart of `edit_without_effect`.
-fn edit_without_effect_w<W: Copy>(d: &mut AdjacencyListWeighted<W>, m: &Model, conv: &impl Fn(i64) -> W, other: W) {
+fn edit_without_effect_w<W: Copy + Default + Ord + std::hash::Hash + std::fmt::Debug + Send + Sync + 'static>(d: &mut AdjacencyListWeighted<W>, m: &Model, conv: &impl Fn(i64) -> W, other: W) {
     use graaf::{AddArcWeighted, RemoveArc};
     let n = m.n();
     if n == 0 {
@@ -368,7 +368,7 @@ pub fn build_map_any(m: &Model) -> AdjacencyMap {
 /// on the model: ascending `add_arc_weighted`; a scrambled order in which some
 /// arcs are first added with another weight and then re-added (re-adding
 /// replaces the weight); or `From<iterator of weight maps>`.
-fn build_weighted<W: Copy>(m: &Model, conv: impl Fn(i64) -> W, other: W) -> AdjacencyListWeighted<W> {
+fn build_weighted<W: Copy + Default + Ord + std::hash::Hash + std::fmt::Debug + Send + Sync + 'static>(m: &Model, conv: impl Fn(i64) -> W, other: W) -> AdjacencyListWeighted<W> {
     let mut d = build_weighted_plain(m, &conv, other);
     if route_edits(m) {
         edit_without_effect_w(&mut d, m, &conv, other);
@@ -376,7 +376,7 @@ fn build_weighted<W: Copy>(m: &Model, conv: impl Fn(i64) -> W, other: W) -> Adja
     d
 }
 
-fn build_weighted_plain<W: Copy>(m: &Model, conv: &impl Fn(i64) -> W, other: W) -> AdjacencyListWeighted<W> {
+fn build_weighted_plain<W: Copy + Default + Ord + std::hash::Hash + std::fmt::Debug + Send + Sync + 'static>(m: &Model, conv: &impl Fn(i64) -> W, other: W) -> AdjacencyListWeighted<W> {
     use graaf::{AddArcWeighted, Converse, Empty};
     assert!(m.is_contig() && m.n() > 0);
     match route(m, 7) {
